@@ -266,7 +266,7 @@ MK = {'linear': lambda p: linear_ops(p[1], p[2], p[3]), 'product': lambda p: pro
 def sections(tier):
     S = run.Section
     FULL[0] = (tier == 'thorough')
-    return [S(':'.join(map(str, p)), MK[p[0]](p), budget_s=170 if tier == 'quick' else 3000, replayer=p[0], config='%dD' % p[1],
+    return [S(':'.join(map(str, p)), MK[p[0]](p), budget_s=170 if tier == 'quick' else 1200, replayer=p[0], config='%dD' % p[1],
               maxpaths=400, timeout_ms=30000) for p in plan(tier)]
 
 
